@@ -8,10 +8,11 @@ import InToto.Model.Metadata
 import InToto.Proofs.Schema
 import InToto.Generated.Facts
 import InToto.Model.SchemaFacts
+import InToto.Proofs.FileRoundTrip
 
 namespace InToto.C12
 set_option maxRecDepth 100000
-open InToto InToto.Json InToto.Schema InToto.Metadata InToto.SchemaProofs
+open InToto InToto.Json InToto.Schema InToto.Metadata InToto.SchemaProofs InToto.FileProofs
 
 /-- C12 (round trip, schema level): for every well-typed link value, strictly decoding what
     `json.Marshal` wrote gives the value back (an `omitempty` field holding an empty non-nil
@@ -129,5 +130,45 @@ theorem facts_schema_is_model : SchemaFacts.namesOf Schema.fieldsLink = SchemaFa
 /-- the hexadecimal-string regular expression of the validator is the one `Validate.isHex` models -/
 theorem facts_hex_regexp : (lit% "^[a-fA-F0-9]+$") ∈ Generated.regexps := by decide
 theorem facts_payload_type : Generated.constPayloadType = Metadata.payloadTypeConst := by decide
+
+/-- C12 AT FILE LEVEL (Metablock wrapper): the text `Dump` writes for a well-typed, type-marked
+    payload with a well-typed signature list is read back by `LoadMetadata` AND by the deprecated
+    `Metablock.Load` as the same payload and the same signatures (omitempty-normalised; a nil
+    signature list comes back empty).  `FracsOK`: every non-integral number in a by-product is a
+    JSON number literal (float64 formatting itself is not modelled). -/
+theorem file_roundtrip_metablock (p : Payload) (sigs : TVal) (hp : PayloadWT p) (ht : TypeMarked p) (hs : WT tySigs sigs)
+    (hf : FracsOK p.toJ) (s : Str) (h : dumpText (.legacy p sigs) = some s) :
+    loadMetadata s = .ok (.legacy (normPayload p) (normOmit tySigs (nonNilList sigs))) ∧
+    metablockLoad s = .ok (.legacy (normPayload p) (normOmit tySigs (nonNilList sigs))) :=
+  dump_load_legacy p sigs hp ht hs hf s h
+
+/-- C12 AT FILE LEVEL (DSSE wrapper): an envelope with the payload bytes of a well-typed, type-marked
+    payload and ANY well-typed non-nil signature list (so also after signing), dumped and loaded,
+    carries the same payload type, the same payload string, the same signatures, and a payload
+    that decodes to the same metadata (maps come back in key order: `sortPayload`, a model artefact
+    — Go maps are unordered) -/
+theorem file_roundtrip_envelope (p : Payload) (hp : PayloadWT p) (ht : TypeMarked p)
+    (body : Str) (hb : payloadBytes p = some body)
+    (sl : List TVal) (hs : WT tyDsseSigs (.list (some sl)))
+    (s : Str) (h : dumpText (.dsse payloadTypeConst (B64.encode (utf8 body)) (.list (some sl)) p) = some s) :
+    loadMetadata s = .ok (.dsse payloadTypeConst (B64.encode (utf8 body))
+      (normOmit tyDsseSigs (.list (some sl))) (sortPayload (normPayload p))) :=
+  dump_load_dsse_env p hp ht body hb sl hs s h
+
+/-- the same starting from `SetPayload` -/
+theorem file_roundtrip_set_payload (p : Payload) (hp : PayloadWT p) (ht : TypeMarked p) (md : Md) (hset : setPayload p = .ok md)
+    (s : Str) (h : dumpText md = some s) :
+    ∃ pt pl sigs, md = .dsse pt pl sigs p ∧
+      loadMetadata s = .ok (.dsse pt pl (normOmit tyDsseSigs sigs) (sortPayload (normPayload p))) :=
+  dump_load_dsse p hp ht md hset s h
+
+/-- `Dump` never refuses: the text always exists (so the hypotheses `h` above only name it) -/
+theorem dump_always_writes (v : JVal) : (render true true v).isSome = true :=
+  render_file_isSome true v
+
+/-- base64 and UTF-8 layers of the envelope round-trip exactly -/
+theorem payload_transport_exact (body : Str) :
+    (B64.decodeFlex (B64.encode (utf8 body))).bind B64.bytesToStr = some body := by
+  rw [decodeFlex_encode]; exact bytesToStr_utf8 body
 
 end InToto.C12
